@@ -162,7 +162,9 @@ _ctr = [0]
 def check_table_reg(acc, order):
     from metador_core.plugin.util import register_in_group
     from metador_core.plugins import schemas
+    from typing import Optional
     from metador_core.schema import MetadataSchema
+    from metador_core.schema.types import Int, Str
     _ctr[0] += 1
     name = f"vt.c{acc.shard}x{_ctr[0]}"
     regd = []
@@ -171,6 +173,30 @@ def check_table_reg(acc, order):
         cls = type(MetadataSchema)(f"T{_ctr[0]}", (MetadataSchema,), {"Plugin": P, "__module__": __name__})
         register_in_group(schemas, cls, violently=True)
         regd.append((name, v))
+        if len(regd) % 2 == 1:
+            # a registration that the group's checks REFUSE (undeclared widening of an inherited field) leaves no trace
+            bad_v = (v[0], v[1], v[2] + 7)
+            Base = type(MetadataSchema)(f"B{_ctr[0]}", (MetadataSchema,), {"__annotations__": {"x": Int}, "__module__": __name__})
+            for aux in (False, True):
+                PB = type("Plugin", (), {"name": name, "version": bad_v, "auxiliary": aux})
+                Bad = type(MetadataSchema)(f"Bad{_ctr[0]}", (Base,), {"Plugin": PB, "__annotations__": {"x": Optional[Str]}, "__module__": __name__})
+                acc.count("refused_registrations")
+                try:
+                    register_in_group(schemas, Bad, violently=True)
+                    acc.violation("refused-registration-accepted", f"schema with an undeclared widening (x: Int -> Optional[Str]) registered without complaint (auxiliary={aux})",
+                                  {"path": "reg", "order": order})
+                    return
+                except (TypeError, ValueError):
+                    pass
+                got = None
+                try:
+                    got = schemas.get(name, bad_v)
+                except Exception:
+                    pass
+                if got is Bad or any(tuple(r.version) == bad_v for r in schemas.versions(name)):
+                    acc.violation("refused-registration-sticks", f"a registration refused with an error is in effect afterwards: get({name!r}, {bad_v}) -> {got}, "
+                                                                f"versions -> {[tuple(r.version) for r in schemas.versions(name)]} (auxiliary={aux})", {"path": "reg", "order": order})
+                    return
         judge_table(acc, schemas, list(regd), "register_in_group", {"path": "reg", "order": order, "after": len(regd)}, names=[name], count_case=False)
     return judge_table(acc, schemas, regd, "register_in_group", {"path": "reg", "order": order}, names=[name])
 
@@ -181,6 +207,14 @@ def judge_table(acc, G, regd, path, case, names=None, count_case=True):
         acc.case([path, case], nontrivial=len(regd) >= 2)
     for name in names:
         want = spec_versions(regd, name, "schema")
+        # what a caller does with the lists it is handed (re-sorting for display, emptying) is not the group's business
+        for handed in (G.versions(name), G.versions(name, POOL[0]), list(G.keys()) if False else G.versions(name)):
+            try:
+                handed.reverse()
+                handed.clear()
+            except Exception:
+                pass
+        acc.count("handed_out_lists_scribbled")
         got = [tuple(r.version) for r in G.versions(name)]
         acc.count("table_observations")
         if got != want:
@@ -343,7 +377,7 @@ def run_unit(u, acc):
 
 def inconclusive(cov):
     c = cov["counters"]
-    return [f"monitor counter {k} is zero" for k in ("pair_observations", "triples", "table_observations", "codec_roundtrips", "undef_checks", "sort_checks", "equal_value_pairs_across_classes") if not c.get(k)]
+    return [f"monitor counter {k} is zero" for k in ("pair_observations", "triples", "table_observations", "codec_roundtrips", "undef_checks", "refused_registrations", "handed_out_lists_scribbled", "sort_checks", "equal_value_pairs_across_classes") if not c.get(k)]
 
 
 def replay(case, acc):
